@@ -321,9 +321,13 @@ class TraceVerdict:
         self.wall = 0.0
 
 
+_tvn = [0]
+
+
 def _validate_chunk(args):
     pid, family, module, cfg, chunk_traces, timeout, dfs, n = args
-    d = os.path.join(workdir(pid), "tv_%s_%d_%d" % (module, os.getpid(), n))
+    _tvn[0] += 1
+    d = os.path.join(workdir(pid), "tv_%s_%d_%d_%d" % (module, os.getpid(), n, _tvn[0]))
     if os.path.isdir(d):
         shutil.rmtree(d)
     os.makedirs(d)
@@ -331,6 +335,10 @@ def _validate_chunk(args):
         for f in os.listdir(src):
             if f.endswith((".tla", ".cfg")):
                 shutil.copy(os.path.join(src, f), d)
+    if isinstance(cfg, tuple):       # (file name, cfg text): configuration generated per trace group
+        with open(os.path.join(d, cfg[0]), "w") as f:
+            f.write(cfg[1])
+        cfg = cfg[0]
     with open(os.path.join(d, "traces.ndjson"), "w") as f:
         for t in chunk_traces:
             f.write(json.dumps(t, sort_keys=True, separators=(",", ":")) + "\n")
@@ -351,33 +359,40 @@ def _validate_chunk(args):
 
 def validate_traces(pid, family, module, cfg, traces, *, dfs=False, timeout=900, chunk=250, procs=None):
     """Validate every trace (a list of events) against the trace spec in one pass: traces are independent
-    initial states of the trace spec; per-trace high-water marks come back through TLC registers."""
+    initial states of the trace spec; per-trace high-water marks come back through TLC registers.
+    cfg may be a cfg file name, a (name, text) pair, or a function trace -> (name, text) (traces are then
+    grouped by configuration and each group is validated with its own constants)."""
     from concurrent.futures import ThreadPoolExecutor
     v = TraceVerdict()
     t0 = time.time()
     if not traces:
         return v
+    groups = {}
+    for i, t in enumerate(traces):
+        groups.setdefault(cfg(t) if callable(cfg) else cfg, []).append(i)
     jobs = []
-    for n, a in enumerate(range(0, len(traces), chunk)):
-        jobs.append((pid, family, module, cfg, traces[a:a + chunk], timeout, dfs, n))
+    for g, idx in groups.items():
+        for a in range(0, len(idx), chunk):
+            part = idx[a:a + chunk]
+            jobs.append((pid, family, module, g, [traces[i] for i in part], timeout, dfs, len(jobs), part))
     with ThreadPoolExecutor(max_workers=procs or min(NCPU, len(jobs))) as ex:
-        results = list(ex.map(_validate_chunk, jobs))
-    base = 0
+        results = list(ex.map(lambda j: _validate_chunk(j[:8]), jobs))
     for job, (st, payload, distinct) in zip(jobs, results):
+        g, part = job[3], job[8]
         if st != "ok":
-            raise Infra("trace validation could not run (%s %s): %s" % (module, cfg, payload))
+            raise Infra("trace validation could not run (%s %s): %s" % (module, g if not isinstance(g, tuple) else g[0], payload))
         v.tlc_runs += 1
         v.states += distinct
         for k, (hw, fail) in enumerate(payload):
             n = len(job[4][k])
             if hw == n + 1:
-                v.accepted.append(base + k)
+                v.accepted.append(part[k])
+            elif fail != "-":
+                v.rejected.append((part[k], max(hw - 1, 0), "invariant %s violated after this event" % fail))
             else:
-                if fail != "-":
-                    v.rejected.append((base + k, max(hw - 1, 0), "invariant %s violated after this event" % fail))
-                else:
-                    v.rejected.append((base + k, max(hw - 1, 0), "no spec step matches this event"))
-        base += len(job[4])
+                v.rejected.append((part[k], max(hw - 1, 0), "no spec step matches this event"))
+    v.accepted.sort()
+    v.rejected.sort()
     v.wall = time.time() - t0
     return v
 
@@ -541,7 +556,8 @@ def conformance(o, family, module, cfg, pkg, schedules, *, test="TestExec", tag=
             continue
         reported += 1
         path = save_replay(pid, "%s_%s_%d" % (family, tag, sid),
-                           {"property": pid, "family": family, "trace_module": module, "trace_cfg": cfg, "pkg": pkg,
+                           {"property": pid, "family": family, "trace_module": module,
+                            "trace_cfg": cfg if isinstance(cfg, str) else "(per-trace configuration)", "pkg": pkg,
                             "test": test, "env": env or {}, "schedule": sched, "trace": bad,
                             "rejected_at_event": bpos, "event": bad[bpos] if bpos < len(bad) else None,
                             "reason": breason})
